@@ -79,7 +79,28 @@ func runC17(c *hx.Ctx) {
 		}
 		c.Emit("end %d", s.id)
 		if pending > 0 {
-			s.fails = append(s.fails, fmt.Sprintf("%d-futures-pending-after-final-Stop(true)", pending))
+			c.Emit("direct stop %d %s FAIL %d-futures-pending-after-the-final-Stop(true)-returned", s.id, s.name, pending)
+		} else {
+			c.Emit("direct stop %d %s ok", s.id, s.name)
+		}
+		if s.noMon {
+			// per calling goroutine, the publishes reach the peers in the order that goroutine issued them
+			last := map[string]string{}
+			bad := ""
+			for _, p := range s.peerPubs {
+				if i := strings.IndexByte(p, '-'); i > 0 {
+					g := p[:i]
+					if last[g] != "" && last[g] >= p {
+						bad = fmt.Sprintf("%s-seen-after-%s", p, last[g])
+					}
+					last[g] = p
+				}
+			}
+			if bad != "" {
+				c.Emit("direct fifo %d %s FAIL %s", s.id, s.name, bad)
+			} else {
+				c.Emit("direct fifo %d %s ok", s.id, s.name)
+			}
 		}
 		if len(s.fails) > 0 {
 			c.Emit("direct liveness %d %s FAIL %s", s.id, s.name, strings.Join(s.fails, ","))
